@@ -56,6 +56,7 @@ class ErrorCode(Enum):
     TYPE_NOT_DEFINED = 'Type not defined'
     BLOCK_MISMATCH = 'Block start and end are not compatible'
     ILLEGAL_OUTSIDE_SUB = 'Illegal outside SUB/FUNCTION'
+    PROGRAM_TOO_LARGE = 'Program too large'
 
 
 class CompileError(Exception):
